@@ -294,6 +294,11 @@ def run(ctx: Ctx) -> int:
                 repl = sc_.args[0] if sc_.args else None
                 if rv and isinstance(repl, ast.Lambda) and "\\\\u" in ast.unparse(repl.body) and "ord(" in ast.unparse(repl.body) and isinstance(sc_.args[1], ast.Name) and sc_.args[1].id == wf.args.args[0].arg:
                     cls_src = rv[0].value.args[0].value
+                    # the replacement is a JSON \\uXXXX escape: exactly four hex digits, zero padded
+                    fvs = [x for x in ast.walk(repl.body) if isinstance(x, ast.FormattedValue)]
+                    specs = [ast.unparse(x.format_spec)[2:-1] if x.format_spec is not None else "" for x in fvs]
+                    ok_spec = len(fvs) == 1 and specs[0] in ("04x", "04X")
+                    ctx.oblige("C01.a", ok_spec, repl, "characters escaped after json.dumps are written as \\\\u + four zero-padded hex digits" if ok_spec else f"the escape written for raw control characters uses the format `{specs}`: `\\\\u` must be followed by exactly four hex digits - with a space-padded or shorter field U+007F is written as `\\\\u  7f`, which neither the json nor the yaml reader accepts", fn=wf, construct="json escape has four hex digits")
         if not raw_all:
             ctx.oblige("C01.a", True, jd[0], f"{name}: ensure_ascii is on, only ASCII is written raw", fn=fn, construct=f"{name} raw characters")
             continue
